@@ -225,3 +225,81 @@ Definition C18_rest_parse_at_b (w : nat) (edd : bool) (i : ir) : bool :=
     end
   | _, _ => false
   end.
+
+(* ------------------------------------------------------------------ prose that ends with a whole default sentence *)
+
+Definition dflt_A : str := announce_text ADefaultsTo.
+
+(* D = d ++ " Defaults to " ++ s : the prose d and the value text s, found as extract_default finds them *)
+Definition sentence_split (D : str) : option (str * str) :=
+  match location_within casefold D default_announces with
+  | Some (i, j, _) => Some (firstn (i - 1) D, skipn j D)
+  | None => None
+  end.
+
+(* the character set_default_doc leaves at the end of the prose *)
+Definition term_char (l : ascii) : bool := ascii_eqb l (ch 46) || ascii_eqb l (ch 44).
+Definition ends_term (d : str) : bool := match last_c d with Some l => term_char l | None => false end.
+
+(* the value text is found right after the announcement and read back whole *)
+Definition value_text_ok (s : str) : bool :=
+  value_announce_ok ADefaultsTo s
+  && str_eqb (scan_default s 0) s && str_eqb (strip_chars strip_set s) s
+  && negb (negb (startswith [ch 40] s) && endswith (L ").") s).
+
+(* a wrapped  :param name: d Defaults to s  line in which the wrapper left  " Defaults to s"  whole at the end *)
+Definition doc_piece_dflt_ok (w : nat) (name D : str) : bool :=
+  match sentence_split D with
+  | Some (d, s) =>
+    let tail := [sp] ++ dflt_A ++ s in
+    str_eqb D (d ++ tail) && prose_line_ok d && ends_term d && value_text_ok s
+    && edge_okb D && negb (mem_c nl D)
+    && match wrapped_line w (rest_doc_line name D) with
+       | Ok t =>
+         match value_after (L ":param " ++ name ++ L ":") t with
+         | Some (pad, val) =>
+           let wd := firstn (List.length val - List.length tail) val in
+           nonempty pad && str_eqb val (wd ++ tail) && edge_okb val && no_rest_token val
+           && nonempty wd && no_announce wd && ends_term wd
+           && str_eqb (norm_doc wd) (norm_doc d) && str_eqb (norm_doc val) (norm_doc D)
+         | None => false
+         end
+       | Err _ => false
+       end
+  | None => false
+  end.
+
+Definition entry_pieces_ok_d (w : nat) (np : str * param) : bool :=
+  let name := fst np in
+  match rest_block_of true name (snd np) with
+  | Ok (b, _) =>
+    (match rb_doc b, rb_typ b with None, None => false | _, _ => true end)
+    && (match rb_doc b with
+        | Some D => no_rest_token D
+                    && (if is_return name then ret_piece_ok w D
+                        else doc_piece_ok w name D || doc_piece_dflt_ok w name D)
+        | None => true
+        end)
+    && (match rb_typ b with Some t => typ_piece_ok w name t | None => true end)
+  | Err _ => false
+  end.
+
+(* piece by piece, default sentences allowed when the wrapper leaves them whole *)
+Definition guard_C18_rest_pieces_d (w : nat) (i : ir) : bool :=
+  match ir_doc i, params_of (ir_params i) with
+  | Has d, Some ps =>
+    summary_piece_ok w d
+    && forallb param_name_ok ps
+    && forallb (entry_pieces_ok_d w) ps
+    && match ir_returns i with
+       | Has g => match param_of_gparam g with
+                  | Some p => entry_pieces_ok_d w (L "return_type", p)
+                  | None => false
+                  end
+       | _ => match ps with [] => false | _ => true end
+       end
+  | _, _ => false
+  end.
+
+Definition guard_C18_rest_parse_d (w : nat) (edd : bool) (i : ir) : bool :=
+  Nat.ltb 0 w && guard_C01_rest edd i && guard_C18_rest_pieces_d w i.
